@@ -159,14 +159,28 @@ fn float_case(rng: &mut Rng, st: &mut Stats) {
     }
     // higher order: second derivative through two successive calls
     if rng.chance(1, 3) && !nondiff {
-        let w2 = rng.below(vars.len());
-        let d2 = catch(|| d.clone().partial(w2));
+        let w2 = if rng.chance(1, 3) { wrt } else { rng.below(vars.len()) };
+        // the second order is reached by a second single call, by one iterated call or by one
+        // repeated call on the original expression
+        let how = if w2 == wrt { rng.below(3) } else { rng.below(2) };
+        let d2 = catch(|| match how {
+            0 => d.clone().partial(w2),
+            1 => FlatEx::<f64>::parse(&text).and_then(|f| f.partial_iter([wrt, w2].into_iter())),
+            _ => {
+                if path % 2 == 0 {
+                    FlatEx::<f64>::parse(&text).and_then(|f| f.partial_nth(wrt, 2))
+                } else {
+                    DeepEx::<f64>::parse(&text).and_then(|f| f.partial_nth(wrt, 2)).and_then(FlatEx::from_deepex)
+                }
+            }
+        });
         match d2 {
             Ok(Ok(d2)) => {
                 for _ in 0..2 {
                     let p = sample_point(rng, vars.len());
                     let Some((want, mag)) = ref_d2(&tree, &table, &vars, &p, wrt, w2) else { continue };
                     st.bump("second_order_points_judged");
+                    st.bump(["second_order_by_two_single_calls", "second_order_by_partial_iter", "second_order_by_partial_nth"][how]);
                     let got = d2.eval(&p).unwrap_or(f64::NAN);
                     if !close(got, want, mag, 1e-7) {
                         st.violation(
@@ -247,8 +261,27 @@ fn rat_case(rng: &mut Rng, table: &Table, st: &mut Stats) {
         }
     }
     if rng.chance(1, 3) {
-        let w2 = rng.below(vars.len());
-        if let Ok(Ok(d2)) = catch(|| d.clone().partial(w2)) {
+        let w2 = if rng.chance(1, 3) { wrt } else { rng.below(vars.len()) };
+        let how = if w2 == wrt { rng.below(3) } else { rng.below(2) };
+        let d2 = catch(|| match how {
+            0 => d.clone().partial(w2),
+            1 => {
+                if deep {
+                    DR::parse(&text).and_then(|f| f.partial_iter([wrt, w2].into_iter())).and_then(FR::from_deepex)
+                } else {
+                    FR::parse(&text).and_then(|f| f.partial_iter([wrt, w2].into_iter()))
+                }
+            }
+            _ => {
+                if deep {
+                    DR::parse(&text).and_then(|f| f.partial_nth(wrt, 2)).and_then(FR::from_deepex)
+                } else {
+                    FR::parse(&text).and_then(|f| f.partial_nth(wrt, 2))
+                }
+            }
+        });
+        if let Ok(Ok(d2)) = d2 {
+            st.bump(["exact_second_order_by_two_single_calls", "exact_second_order_by_partial_iter", "exact_second_order_by_partial_nth"][how]);
             for _ in 0..2 {
                 let p = rat_point(rng, vars.len());
                 let Some(want) = ref_rat_d2(&tree, table, &vars, &p, wrt, w2) else { continue };
@@ -270,13 +303,98 @@ fn rat_case(rng: &mut Rng, table: &Table, st: &mut Stats) {
     }
 }
 
+/// Long chains on ONE nesting level (18..48 operands, no parentheses), exact arithmetic: the
+/// rules are applied operator by operator in the order the priorities impose (equal priorities
+/// left to right), also when one level of a directly parsed deep expression carries dozens of
+/// operators.
+fn long_level_case(rng: &mut Rng, table: &Table, st: &mut Stats) {
+    let n = rng.range(18, 48);
+    let op = |name: &str| table.iter().position(|o| o.name == name).unwrap();
+    let (add, sub, mul, div) = (op("+"), op("-"), op("*"), op("/"));
+    let names = ["x", "y", "z"];
+    let operands: Vec<Tree> = (0..n).map(|_| if rng.chance(1, 4) { Tree::lit(&format!("{}", rng.range(1, 5))) } else { Tree::var(*rng.pick(&names)) }).collect();
+    let style = rng.below(3);
+    let ops: Vec<usize> = (0..n - 1)
+        .map(|_| match (style, rng.below(12)) {
+            (0, 0..=6) => sub,
+            (0, _) => mul,
+            (1, 0..=3) => add,
+            (1, 4..=7) => sub,
+            (1, 8..=10) => mul,
+            (1, _) => div,
+            (_, 0..=7) => sub,
+            (_, 8..=9) => div,
+            _ => mul,
+        })
+        .collect();
+    let tree = tree_from_chain(&operands, &ops, table);
+    let vars = tree.vars();
+    if vars.is_empty() {
+        return;
+    }
+    let text = render(&tree, table, rng, &RenderCfg::plain());
+    if text.contains('(') {
+        return;
+    }
+    st.bump("cases");
+    st.bump("long_single_level_chains");
+    st.class(("long-level", n, style, ops.iter().filter(|o| **o == mul).count()));
+    let wrt = rng.below(vars.len());
+    let deep = rng.chance(2, 3);
+    let r = catch(|| -> Result<FR, String> {
+        let e = |x: exmex::ExError| x.msg().to_string();
+        if deep {
+            FR::from_deepex(DR::parse(&text).map_err(e)?.partial(wrt).map_err(e)?).map_err(e)
+        } else {
+            FR::parse(&text).map_err(e)?.partial(wrt).map_err(e)
+        }
+    });
+    let d = match r {
+        Ok(Ok(d)) => d,
+        Ok(Err(m)) => {
+            st.violation(format!("long-level-error|{text}"), text.len(), json!({"kind": "exact-derivative-error", "text": text, "error": m}));
+            return;
+        }
+        Err(m) => {
+            st.violation(format!("long-level-panic|{text}"), text.len(), json!({"kind": "exact-derivative-panic", "text": text, "panic": m}));
+            return;
+        }
+    };
+    for _ in 0..3 {
+        let p = rat_point(rng, vars.len());
+        let Some((_, want)) = ref_rat_d1(&tree, table, &vars, &p, wrt) else {
+            st.bump("exact_points_discarded");
+            continue;
+        };
+        let got: Rat = d.eval(&p).unwrap_or(crate::num::POISON);
+        if got.is_poison() {
+            st.bump("exact_points_overflow_in_derivative_form_not_judged");
+            continue;
+        }
+        st.bump("long_single_level_chain_points_judged");
+        if deep {
+            st.bump("long_single_level_chain_points_judged_deep_parse");
+        }
+        if got != want {
+            st.violation(
+                format!("long-level-value|{}|{text}|d{}", if deep { "deep" } else { "flat" }, vars[wrt]),
+                text.len(),
+                json!({"kind": "exact-derivative-value-long-level", "text": text, "parsed_as": if deep { "DeepEx" } else { "FlatEx" }, "wrt": vars[wrt], "point": format!("{p:?}"), "got": format!("{got:?}"), "true_derivative": format!("{want:?}")}),
+            );
+            return;
+        }
+    }
+}
+
 pub fn run(ctx: &Ctx) -> i32 {
     let n = ctx.n(120_000, 6_000_000);
     let stats = run_workers(ctx, 5, |w, rng, st| {
         let quota = share(n, w, ctx.threads);
         let rtable = sub_table(&["+", "-", "*", "/", "^"], true);
         for i in 0..quota {
-            if i % 4 == 3 {
+            if i % 16 == 5 {
+                long_level_case(rng, &rtable, st);
+            } else if i % 4 == 3 {
                 rat_case(rng, &rtable, st);
             } else {
                 float_case(rng, st);
@@ -284,7 +402,7 @@ pub fn run(ctx: &Ctx) -> i32 {
         }
     });
     let mut report = Report::new(
-        "random trees (1..10 operands, depth-unbounded) over + - * / ^ (literal, variable and compound exponents), unary + -, the 18 elementary functions and the constants, rendered in random spellings; derivative obtained through FlatEx::partial, DeepEx::partial, flat->deep->partial, deep->flat->partial, and a second time for order 2; compared at random points with forward-mode dual numbers evaluated on the reference tree. f64: |D-R| <= 1e-9 max(|R|, 1e-6 M) at points that pass interior-domain guards (arguments 0.05 away from every singularity, magnitudes < 1e6) and a conditioning filter; exact rationals (+ - * / and integer literal powers): equality. A tree containing an operator without a derivative rule over a variable must yield Err (or, if a derivative is returned, a correct one). distinct_nontrivial = distinct (tree shape, text length) classes.",
+        "random trees (1..10 operands, depth-unbounded) over + - * / ^ (literal, variable and compound exponents), unary + -, the 18 elementary functions and the constants, rendered in random spellings; derivative obtained through FlatEx::partial, DeepEx::partial, flat->deep->partial, deep->flat->partial, and a second time for order 2 (by a second single call, by partial_iter or by partial_nth on the original); long parenthesis-free chains of 18..48 operands on one nesting level, parsed directly as deep expressions, over exact rationals; compared at random points with forward-mode dual numbers evaluated on the reference tree. f64: |D-R| <= 1e-9 max(|R|, 1e-6 M) at points that pass interior-domain guards (arguments 0.05 away from every singularity, magnitudes < 1e6) and a conditioning filter; exact rationals (+ - * / and integer literal powers): equality. A tree containing an operator without a derivative rule over a variable must yield Err (or, if a derivative is returned, a correct one). distinct_nontrivial = distinct (tree shape, text length) classes.",
     )
     .assume("points failing the guards or the conditioning filter are discarded and counted, never judged")
     .assume("0^0 'both zero' errors of the power shortcut are counted, not judged")
@@ -292,6 +410,11 @@ pub fn run(ctx: &Ctx) -> i32 {
     .require("second_order_points_judged", 1000)
     .require("reversed_table_points_judged", 1000)
     .require("exact_points_judged", 5000)
+    .require("long_single_level_chain_points_judged_deep_parse", 2000)
+    .require("second_order_by_partial_iter", 300)
+    .require("second_order_by_partial_nth", 100)
+    .require("exact_second_order_by_partial_iter", 300)
+    .require("exact_second_order_by_partial_nth", 100)
     .require("rule_less_operator_reported_as_error", 500);
     for r in ["binary +", "binary -", "binary *", "binary /", "binary ^ (constant exponent)", "binary ^ (variable exponent)", "unary -", "unary +"] {
         report = report.require(&format!("rule judged: {r}"), 100);
